@@ -1,6 +1,58 @@
-(* placeholder; theorems follow *)
-From Coq Require Import String List.
-From Glom Require Import Base.PyVal Model.Interp.
-Theorem head_mode_nil : head_mode nil = AUTO.
-Proof. reflexivity. Qed.
-Print Assumptions head_mode_nil.
+(* Properties/C07.v — scope bindings are lexically scoped, chain forward, never outlive the call. *)
+From Coq Require Import String ZArith Bool List.
+From Glom Require Import Base.PyVal Model.TEval Model.Interp Proofs.InterpProofs.
+Import ListNotations.
+Local Open Scope string_scope.
+Local Open Scope list_scope.
+
+(* non-interference: two scopes that agree on the head frame's mode flags and on every lookup are indistinguishable for
+   every spec — so a binder can influence a reader only through the frames on the reader's scope chain, which the
+   handlers build as: the frames of the enclosing specs, plus (chain_child) the final frames of the earlier steps of the
+   enclosing tuples / Pipes (and of the Switch / match-dict key for its own value spec) *)
+Theorem scope_noninterference : forall fixed fuel, rec_respects (glom_ fixed fuel).
+Proof. exact glom_respects_scope. Qed.
+Print Assumptions scope_noninterference.
+
+(* S(k=Val v) followed by S.k in the same chain yields v *)
+Theorem binding_chains_forward : forall fuel own sc t k v st,
+  k <> "globals" -> not_signal t -> not_signal v ->
+  chain_loop true (glom_ true (S (S fuel))) (fmode own) [SBind [(k, SVal v)]; ST RS [(".", SStr k)]] (own :: sc) t st = (Ok v, st).
+Proof. exact binding_chains_forward_lemma. Qed.
+Print Assumptions binding_chains_forward.
+
+(* a reader sees the nearest binding on its scope chain (inner shadows outer) or fails with PathAccessError(KeyError, 0) *)
+Theorem reader_sees_nearest_binding : forall fixed fuel sc t k st, k <> "globals" ->
+  glom_ fixed (S fuel) sc t (ST RS [(".", SStr k)]) st
+  = match lookup k sc with
+    | Some v => (Ok (v, mkFrame [] (head_mode sc) false []), st)
+    | None => (Raise (pae "KeyError" 0), st) end.
+Proof. exact eval_read. Qed.
+Print Assumptions reader_sees_nearest_binding.
+
+(* the final frame of any spec that is not itself a binder carries no bindings: whatever was bound inside it (nested
+   tuples, dict values, branches ...) is invisible to the enclosing spec and to later steps *)
+Theorem nonbinder_leaves_no_bindings : forall fixed rec sc t s st v child st',
+  glom_body fixed rec sc t s st = (Ok (v, child), st') -> is_binder s = false -> binds child = [] /\ frefs child = [].
+Proof. intros fixed rec sc t s st v child st' H NB. exact (proj2 (glom_body_frame fixed rec sc t s st v child st' H) NB). Qed.
+Print Assumptions nonbinder_leaves_no_bindings.
+
+(* sibling dict values (and list elements, Coalesce / And / Or branches: see their loops) are evaluated under the same
+   scope: a binding made in one is not visible in the next *)
+Theorem dict_values_share_scope : forall rec sc t ks ss acc, length ks = length ss ->
+  eqM (dict_loop rec sc t (combine (map SStr ks) ss) acc)
+      (let! vs := each_loop rec sc t ss in ret (dict_build ks vs acc)).
+Proof. exact dict_spec_law. Qed.
+Print Assumptions dict_values_share_scope.
+
+(* non-vacuity, and the shapes of test_scope_vars: the inner binding does not leak *)
+Definition ex_t : val := VDict 1 false [(VStr "a", VInt 1)].
+Example ex_no_leak :
+  fst (glom_top true [] ex_t (STuple [SBind [("k", SVal (VStr "outer"))]; STuple [SBind [("k", SVal (VStr "inner"))]]; ST RS [(".", SStr "k")]]))
+  = Ok (VStr "outer").
+Proof. vm_compute. reflexivity. Qed.
+Example ex_sibling :
+  fst (glom_top true [] ex_t (SDict false [(SStr "x", SBind [("k", SVal (VInt 5))]); (SStr "y", ST RS [(".", SStr "k")])]))
+  = Raise (pae "KeyError" 0).
+Proof. vm_compute. reflexivity. Qed.
+Example ex_user_scope : fst (glom_top true [("u", VInt 9)] ex_t (ST RS [(".", SStr "u")])) = Ok (VInt 9).
+Proof. vm_compute. reflexivity. Qed.
